@@ -20,6 +20,7 @@ import CbiVerif.Drv.Fortran
 import CbiVerif.Drv.C03
 import CbiVerif.Drv.Include
 import CbiVerif.Drv.GitIgnore
+import CbiVerif.Drv.Reach
 /-! Native JSON-lines driver: one request object per line, one reply per line.
 Each area registers its ops in `CbiVerif/Drv/<Area>.lean`. -/
 open Lean
@@ -45,7 +46,8 @@ def handlerTable : List (String × (Json → Json)) :=
   CbiVerif.Drv.Fortran.handlers ++
   CbiVerif.Drv.C03.handlers ++
   CbiVerif.Drv.Include.handlers ++
-  CbiVerif.Drv.GitIgnore.handlers
+  CbiVerif.Drv.GitIgnore.handlers ++
+  CbiVerif.Drv.Reach.handlers
 
 def handle (j : Json) : Json :=
   match j.getObjValAs? String "op" with
